@@ -344,12 +344,14 @@ func TestVerifC13Loader(t *testing.T) {
 	globalContext.mux = http.NewServeMux()
 
 	n := 0
+	scratch := c13Scratch(t)
 	run := func(body []byte, what string, classes ...string) {
 		n++
-		dir := filepath.Join(t.TempDir(), fmt.Sprintf("d%d", n))
+		dir := filepath.Join(scratch, fmt.Sprintf("d%d", n))
 		if err := os.MkdirAll(dir, 0o755); err != nil {
 			t.Fatal(err)
 		}
+		defer os.RemoveAll(dir)
 		ok, msg, stages := c13Load(pristine, body, dir)
 		c := vfCase{
 			Coq:        vfApp("C13.CLoader", vfBool(ok)),
